@@ -1308,6 +1308,8 @@ class Engine:
         key = '<%s as Drop>::drop' % short
         name = self.alias.get(key)
         v = fr[place[0]].v
+        if isinstance(v, Opaque):
+            return
         if name is not None and v is not None:
             self.run(self.funcs[name], [Ref(fr[place[0]])])
             return
